@@ -193,7 +193,100 @@ def _return_placement_ok(fn):
                     return False
         return True
 
-    return ok(_body_wo_doc(fn))
+    body = _body_wo_doc(fn)
+    if ok(body):
+        return True
+    # returns inside the helper's *last* statement when that is a loop (`while True: ... return x`):
+    # they become `ret = x; break` - nothing follows the loop, so leaving it is leaving the helper
+    if body and isinstance(body[-1], (ast.While, ast.For)) and not body[-1].orelse and ok(body[:-1]) and not any(isinstance(x, ast.Return) for st in body[:-1] for x in _walk_no_defs(st)):
+        return _loop_returns_ok(body[-1])
+    return False
+
+
+def _loop_returns_ok(lp):
+    """every return in the loop sits in the loop body's own if/else skeleton (no inner loop, try, with)"""
+
+    def ok(stmts):
+        for s in stmts:
+            if isinstance(s, ast.Return):
+                continue
+            if isinstance(s, ast.If):
+                if not ok(s.body) or not ok(s.orelse):
+                    return False
+                continue
+            if isinstance(s, (ast.FunctionDef, ast.AsyncFunctionDef, ast.ClassDef)):
+                continue
+            if any(isinstance(x, ast.Return) for x in _walk_no_defs(s)):
+                return False
+        return True
+
+    return ok(lp.body)
+
+
+def _loop_returns_to_breaks(lp, ret_name):
+    def conv(stmts):
+        out = []
+        for s in stmts:
+            if isinstance(s, ast.Return):
+                val = s.value if s.value is not None else ast.Constant(value=None)
+                out.append(ast.copy_location(ast.Assign(targets=[ast.Name(id=ret_name, ctx=ast.Store())], value=val, lineno=s.lineno), s))
+                out.append(ast.copy_location(ast.Break(), s))
+                return out
+            if isinstance(s, ast.If):
+                s.body = conv(s.body) or [ast.Pass()]
+                s.orelse = conv(s.orelse)
+            out.append(s)
+        return out
+
+    lp.body = conv(lp.body) or [ast.Pass()]
+    return lp
+
+
+def _import_map(rel, tree):
+    """module-level imported names -> (absolute module, symbol)"""
+    out = {}
+    pkg = rel[:-3].split("/")[:-1]
+    for st in tree.body:
+        if isinstance(st, ast.ImportFrom):
+            base = pkg[: len(pkg) - (st.level - 1)] if st.level else []
+            mod = ".".join(base + ([st.module] if st.module else []))
+            for a in st.names:
+                out[a.asname or a.name] = (mod, a.name)
+        elif isinstance(st, ast.Import):
+            for a in st.names:
+                out[(a.asname or a.name).split(".")[0]] = (a.name if a.asname else a.name.split(".")[0], None)
+    return out
+
+
+def _simple_generator(fn):
+    """a generator with exactly one `yield`, a statement that ends the body of its innermost loop
+    (possibly the tail of an if-chain there), not under try/with: usable as `for T in gen(..): BODY`"""
+    if isinstance(fn, ast.AsyncFunctionDef) or fn.args.vararg or fn.args.kwarg:
+        return False
+    ys = [n for n in _own_walk(fn) if isinstance(n, (ast.Yield, ast.YieldFrom))]
+    if len(ys) != 1 or isinstance(ys[0], ast.YieldFrom) or any(isinstance(n, ast.Return) and n.value is not None for n in _own_walk(fn)):
+        return False
+    if any(isinstance(n, (ast.Try, ast.With, ast.Global, ast.Nonlocal, ast.Await)) for n in _own_walk(fn)):
+        return False
+    for dec in fn.decorator_list:
+        if not (isinstance(dec, ast.Name) and dec.id in ("staticmethod",)):
+            return False
+
+    def tail_yield(stmts):
+        if not stmts:
+            return False
+        last = stmts[-1]
+        if isinstance(last, ast.Expr) and last.value is ys[0]:
+            return True
+        if isinstance(last, ast.If):
+            return tail_yield(last.body) or tail_yield(last.orelse)
+        return False
+
+    loops = [n for n in _own_walk(fn) if isinstance(n, (ast.For, ast.While)) and any(x is ys[0] for x in ast.walk(n))]
+    if not loops:
+        return False
+    inner = min(loops, key=lambda l: sum(1 for _ in ast.walk(l)))
+    return tail_yield(inner.body) and _stmt_count(fn) <= MAX_BODY
 
 
 def _eligible(d: _Def):
@@ -201,8 +294,13 @@ def _eligible(d: _Def):
     if isinstance(fn, ast.AsyncFunctionDef):
         return False
     a = fn.args
-    if a.vararg or a.kwarg:
+    if a.vararg:
         return False
+    if a.kwarg:
+        # `def msg(**fields): return {"v": 1, **fields}`: only as a one-expression helper
+        b = _body_wo_doc(fn)
+        if not (len(b) == 1 and isinstance(b[0], ast.Return) and b[0].value is not None):
+            return False
     for dec in fn.decorator_list:
         if not (isinstance(dec, ast.Name) and dec.id in ("staticmethod", "classmethod")):
             return False
@@ -313,8 +411,27 @@ class _Inliner:
         self.cands = {}
         for rel, ds in self.defs.items():
             for d in ds:
-                if d.qual not in self.known and _eligible(d):
+                if d.qual not in self.known and (_eligible(d) or _simple_generator(d.node)):
                     self.cands[d.qual] = d
+        self.imports = {rel: _import_map(rel, tree) for rel, tree in self.mods.items()}
+
+    def portable(self, d: _Def, to_rel: str):
+        """may the helper's body be placed into module `to_rel`?  Every free name it uses is a
+        builtin or is bound to the same imported symbol there"""
+        if d.rel == to_rel:
+            return True
+        import builtins
+
+        fn = d.node
+        free = {n.id for n in ast.walk(fn) if isinstance(n, ast.Name)} - _locals_of(fn)
+        for nm in free:
+            if hasattr(builtins, nm):
+                continue
+            a = self.imports.get(d.rel, {}).get(nm)
+            b = self.imports.get(to_rel, {}).get(nm)
+            if a is None or a != b:
+                return False
+        return True
 
     def resolve(self, caller: _Def, call: ast.Call):
         """(helper def, receiver expr or None) for a call inside `caller`"""
@@ -342,7 +459,7 @@ class _Inliner:
             if len(defs) != 1:
                 return None
             d = defs[0]
-            if d.qual not in self.cands or d.rel != rel:
+            if d.qual not in self.cands or not self.portable(d, rel):
                 return None
             decs = {x.id for x in d.node.decorator_list if isinstance(x, ast.Name)}
             if "staticmethod" in decs:
@@ -353,7 +470,7 @@ class _Inliner:
         return None
 
     # ............................................................... one call
-    def expansion(self, d: _Def, call: ast.Call, recv):
+    def expansion(self, d: _Def, call: ast.Call, recv, stmt=None):
         """(prelude statements, result expression or None)"""
         fn = d.node
         self.counter += 1
@@ -378,10 +495,18 @@ class _Inliner:
             given[p] = a
         if len(call.args) > len(plist):
             return None
+        extra = []
         for kw in call.keywords:
-            if kw.arg not in params or kw.arg in given:
+            if kw.arg in given:
                 return None
+            if kw.arg not in params:
+                if fn.args.kwarg is None:
+                    return None
+                extra.append(kw)
+                continue
             given[kw.arg] = kw.value
+        if fn.args.kwarg is not None:
+            exprs[fn.args.kwarg.arg] = ast.Dict(keys=[ast.Constant(value=kw.arg) for kw in extra], values=[kw.value for kw in extra])
         for p in plist + [x.arg for x in fn.args.kwonlyargs]:
             if p in given:
                 binds.append((p, given[p]))
@@ -391,13 +516,50 @@ class _Inliner:
                 return None
         locs = _locals_of(fn)
         mapping = {n: f"{n}__i{k}" for n in locs if n not in exprs}
+        # name unification ("un-extract"): `a, b = helper(a, x)` where the helper returns its locals
+        # (a, b): the helper's locals become the caller's variables, so facts and stores about them
+        # are facts and stores about the caller's variables again
+        stored = {n.id for n in _own_walk(fn) if isinstance(n, ast.Name) and isinstance(n.ctx, (ast.Store, ast.Del))}
+        free = {n.id for n in ast.walk(fn) if isinstance(n, ast.Name)} - locs
+        unify = {}
+        if isinstance(stmt, ast.Assign) and len(stmt.targets) == 1 and stmt.value is call:
+            tg = stmt.targets[0]
+            rv = [r.value for r in _returns(fn) if r.value is not None]
+            if isinstance(tg, ast.Name) and rv and all(isinstance(v, ast.Name) and v.id == rv[0].id for v in rv) and rv[0].id in locs:
+                unify[rv[0].id] = tg.id
+            elif isinstance(tg, ast.Tuple) and all(isinstance(t_, ast.Name) for t_ in tg.elts) and rv and all(isinstance(v, ast.Tuple) and len(v.elts) == len(tg.elts) and all(isinstance(x, ast.Name) for x in v.elts) for v in rv):
+                names0 = [x.id for x in rv[0].elts]
+                if all([x.id for x in v.elts] == names0 for v in rv) and len(set(names0)) == len(names0) and all(n_ in locs for n_ in names0) and len({t_.id for t_ in tg.elts}) == len(tg.elts):
+                    unify = {n_: t_.id for n_, t_ in zip(names0, tg.elts)}
+            if any(t_ in free for t_ in unify.values()):
+                unify = {}
+        kept = []
+        for p, a in binds:
+            if p in unify:
+                if isinstance(a, ast.Name) and a.id == unify[p]:
+                    continue  # the caller's variable is the parameter
+                unify.pop(p)
+            elif p not in stored and isinstance(a, ast.Name) and a.id not in unify.values() and (a.id not in locs or a.id == p):
+                exprs[p] = a  # read-only parameter: it is the caller's variable
+                mapping.pop(p, None)
+                continue
+            kept.append((p, a))
+        # an argument expression that reads a unified caller variable would see the helper's writes too early
+        if unify and any(isinstance(x, ast.Name) and x.id in unify.values() for _, a in kept for x in ast.walk(a)):
+            unify = {}
+            kept = list(binds)
+            exprs = {k_: v for k_, v in exprs.items() if k_ not in [p for p, _ in binds]}
+            mapping = {n: f"{n}__i{k}" for n in locs if n not in exprs}
+        binds = kept
+        for l_, t_ in unify.items():
+            mapping[l_] = t_
         body = copy.deepcopy(_body_wo_doc(fn))
         # single-expression helper: substitute parameters, no prelude
         if len(body) == 1 and isinstance(body[0], ast.Return) and body[0].value is not None and all(_simple(a) for _, a in binds):
             ex = dict(exprs)
             for p, a in binds:
                 ex[p] = a
-            e = _Rename({}, ex).visit(body[0].value)
+            e = _flatten_dicts(_Rename({}, ex).visit(body[0].value))
             for x in ast.walk(e):
                 if hasattr(x, "lineno") or isinstance(x, ast.expr):
                     x.lineno = call.lineno
@@ -410,8 +572,13 @@ class _Inliner:
         body = [ren.visit(s) for s in body]
         ret = f"ret__i{k}"
         has_value = any(r.value is not None for r in _returns(fn))
-        new_body, _ = _seq_with_returns(body, ret)
-        if has_value and not _always_exits(_body_wo_doc(fn)):
+        loop_form = bool(body) and isinstance(body[-1], (ast.While, ast.For)) and any(isinstance(x, ast.Return) for x in _walk_no_defs(body[-1]))
+        if loop_form:
+            body[-1] = _loop_returns_to_breaks(body[-1], ret)
+            new_body = body
+        else:
+            new_body, _ = _seq_with_returns(body, ret)
+        if has_value and (loop_form or not _always_exits(_body_wo_doc(fn))):
             # falling off the end returns None
             pre.append(ast.Assign(targets=[ast.Name(id=ret, ctx=ast.Store())], value=ast.Constant(value=None), lineno=call.lineno))
         pre.extend(new_body)
@@ -425,7 +592,90 @@ class _Inliner:
                     x.lineno = OrdLine(int(base), bsub + (self.ord,), true_line(x) if t is not None else (base.true if isinstance(base, OrdLine) else base))
                     if getattr(x, "end_lineno", None) is not None:
                         x.end_lineno = x.lineno
+        if unify:
+            # the helper's result variables are the statement's targets already: `a, b = (a, b)` is dropped
+            return pre, "DROP"
         return pre, (ast.Name(id=ret, ctx=ast.Load()) if has_value else ast.Constant(value=None))
+
+    def generator_expansion(self, d: _Def, loop: ast.For, recv):
+        """statements replacing `for T in gen(args): BODY`: the generator's body with
+        `yield E` turned into `T = E` followed by BODY"""
+        fn = d.node
+        call = loop.iter
+        self.counter += 1
+        k = self.counter
+        pos = [x.arg for x in fn.args.posonlyargs + fn.args.args]
+        if any(isinstance(n, (ast.Break,)) for b in loop.body for n in _walk_no_defs(b) if not _inside_inner_loop(loop, n)):
+            # a break in BODY must leave the generator's whole loop nest
+            nest = [n for n in _own_walk(fn) if isinstance(n, (ast.For, ast.While))]
+            if len(nest) != 1 or _body_wo_doc(fn)[-1] is not nest[0]:
+                return None
+        exprs, binds = {}, []
+        plist = list(pos)
+        if recv is not None and recv != "static" and plist:
+            sp = plist.pop(0)
+            if isinstance(recv, ast.Name):
+                exprs[sp] = recv
+            else:
+                binds.append((sp, recv))
+        if len(call.args) > len(plist) or call.keywords:
+            return None
+        defaults = dict(zip(pos[len(pos) - len(fn.args.defaults) :], fn.args.defaults))
+        for i, p in enumerate(plist):
+            if i < len(call.args):
+                binds.append((p, call.args[i]))
+            elif p in defaults:
+                binds.append((p, defaults[p]))
+            else:
+                return None
+        locs = _locals_of(fn)
+        mapping = {n: f"{n}__i{k}" for n in locs if n not in exprs}
+        target, user_body = loop.target, loop.body
+        # name unification: `for i, line in gen()` with `yield line_no, line` -> the generator's
+        # locals are the loop's variables
+        yv = next(n for n in _own_walk(fn) if isinstance(n, ast.Yield)).value
+        free = {n.id for n in ast.walk(fn) if isinstance(n, ast.Name)} - locs
+        unified = False
+        tn = [target] if isinstance(target, ast.Name) else list(target.elts) if isinstance(target, ast.Tuple) else []
+        yn = [yv] if isinstance(yv, ast.Name) else list(yv.elts) if isinstance(yv, ast.Tuple) else []
+        if tn and len(tn) == len(yn) and all(isinstance(x, ast.Name) for x in tn + yn) and len({x.id for x in yn}) == len(yn) and all(x.id in locs and x.id not in exprs and x.id not in [p for p, _ in binds] for x in yn) and not any(x.id in free for x in tn):
+            for t_, y_ in zip(tn, yn):
+                mapping[y_.id] = t_.id
+            unified = True
+        ren = _Rename(mapping, exprs)
+        pre = [ast.Assign(targets=[ast.Name(id=mapping.get(p, p), ctx=ast.Store())], value=copy.deepcopy(a), lineno=call.lineno) for p, a in binds]
+        body = [ren.visit(s) for s in copy.deepcopy(_body_wo_doc(fn))]
+
+        class Y(ast.NodeTransformer):
+            def visit_Expr(self, st):
+                if isinstance(st.value, ast.Yield):
+                    if unified:
+                        return list(user_body)
+                    val = st.value.value if st.value.value is not None else ast.Constant(value=None)
+                    return [ast.copy_location(ast.Assign(targets=[copy.deepcopy(target)], value=val, lineno=st.lineno), st)] + user_body
+                return st
+
+            def visit_FunctionDef(self, n):
+                return n
+
+        out = pre + [Y().visit(s) for s in body]
+        flat = []
+        for s in out:
+            flat.extend(s if isinstance(s, list) else [s])
+        base = loop.lineno
+        bsub = base.sub if isinstance(base, OrdLine) else ()
+        user_nodes = {id(x) for b in user_body for x in ast.walk(b)}
+        for s in flat:
+            for x in _dfs(s):
+                if id(x) in user_nodes:
+                    continue
+                self.ord += 1
+                t = getattr(x, "lineno", None)
+                if isinstance(x, (ast.stmt, ast.expr, ast.excepthandler, ast.arg)) or t is not None:
+                    x.lineno = OrdLine(int(base), bsub + (self.ord,), true_line(x) if t is not None else int(base))
+                    if getattr(x, "end_lineno", None) is not None:
+                        x.end_lineno = x.lineno
+        return flat
 
     # ......................................................... one function
     def process_function(self, caller: _Def):
@@ -449,8 +699,11 @@ class _Inliner:
             def find(e):
                 if e is call:
                     return True
-                if isinstance(e, (ast.Lambda, ast.ListComp, ast.SetComp, ast.DictComp, ast.GeneratorExp)):
+                if isinstance(e, ast.Lambda):
                     return False
+                if isinstance(e, (ast.ListComp, ast.SetComp, ast.DictComp, ast.GeneratorExp)):
+                    # only the first iterable of a comprehension is evaluated on the spot, once
+                    return find(e.generators[0].iter)
                 if isinstance(e, ast.BoolOp):
                     return find(e.values[0])
                 if isinstance(e, ast.IfExp):
@@ -482,6 +735,16 @@ class _Inliner:
                 if isinstance(s, (ast.FunctionDef, ast.AsyncFunctionDef, ast.ClassDef)):
                     out.append(s)
                     continue
+                # `for T in helper_generator(args): BODY`
+                if isinstance(s, ast.For) and isinstance(s.iter, ast.Call) and not s.orelse:
+                    r = self.resolve(caller, s.iter)
+                    if r is not None and _simple_generator(r[0].node) and r[0].node is not caller.node:
+                        g_exp = self.generator_expansion(r[0], s, r[1])
+                        if g_exp is not None:
+                            out.extend(g_exp)
+                            self.report.append((r[0].qual, caller.qual, getattr(s, "lineno", 0)))
+                            changed = True
+                            continue
                 # calls in the statement's own expressions (not in nested blocks)
                 heads = _head_exprs(s)
                 done = False
@@ -491,15 +754,17 @@ class _Inliner:
                         if r is None:
                             continue
                         d, recv = r
-                        if d.node is caller.node:
+                        if d.node is caller.node or not _eligible(d):
                             continue
-                        exp = self.expansion(d, call, recv)
+                        exp = self.expansion(d, call, recv, s)
                         if exp is None:
                             continue
                         pre, res = exp
                         if pre and not hoistable(s, call):
                             continue
-                        if isinstance(s, ast.Expr) and s.value is call:
+                        if isinstance(res, str) and res == "DROP":
+                            out.extend(pre)
+                        elif isinstance(s, ast.Expr) and s.value is call:
                             out.extend(pre)
                             if not pre:
                                 out.append(ast.copy_location(ast.Expr(value=res), s))
@@ -589,10 +854,44 @@ class _Inliner:
                     self.dropped.append(d.qual)
 
 
+def _flatten_dicts(e):
+    """{"a": 1, **{"b": 2}} -> {"a": 1, "b": 2}"""
+    for n in ast.walk(e):
+        if isinstance(n, ast.Dict) and any(k is None and isinstance(v, ast.Dict) for k, v in zip(n.keys, n.values)):
+            ks, vs = [], []
+            for k, v in zip(n.keys, n.values):
+                if k is None and isinstance(v, ast.Dict):
+                    ks += v.keys
+                    vs += v.values
+                else:
+                    ks.append(k)
+                    vs.append(v)
+            n.keys, n.values = ks, vs
+    return e
+
+
 def _dfs(n):
     yield n
     for c in ast.iter_child_nodes(n):
         yield from _dfs(c)
+
+
+def _inside_inner_loop(loop, node):
+    """is `node` (somewhere in loop.body) inside a loop nested in `loop`?"""
+    def rec(n, depth):
+        if n is node:
+            return depth > 0
+        for c in ast.iter_child_nodes(n):
+            r = rec(c, depth + (1 if isinstance(c, (ast.For, ast.While)) else 0))
+            if r is not None:
+                return r
+        return None
+
+    for b in loop.body:
+        r = rec(b, 1 if isinstance(b, (ast.For, ast.While)) else 0)
+        if r is not None:
+            return r
+    return False
 
 
 def _simple(e):
@@ -681,6 +980,42 @@ def fold_new_constants(mods, known):
     folded = []
     for rel, tree in mods.items():
         consts = {k: v for k, v in module_constants(tree).items() if f"{rel}:{k}" not in known}
+        # new module-level compiled patterns: NAME = re.compile("...")[, flags]; NAME.split(x) -> re.split("...", x)
+        compiled = {}
+        counts = {}
+        for n in ast.walk(tree):
+            if isinstance(n, ast.Name) and isinstance(n.ctx, (ast.Store, ast.Del)):
+                counts[n.id] = counts.get(n.id, 0) + 1
+        for st in tree.body:
+            if isinstance(st, ast.Assign) and len(st.targets) == 1 and isinstance(st.targets[0], ast.Name) and isinstance(st.value, ast.Call):
+                c = st.value
+                nm = st.targets[0].id
+                if f"{rel}:{nm}" in known or counts.get(nm, 0) != 1:
+                    continue
+                if isinstance(c.func, ast.Attribute) and c.func.attr == "compile" and isinstance(c.func.value, ast.Name) and c.func.value.id == "re" and c.args and isinstance(c.args[0], ast.Constant) and isinstance(c.args[0].value, str):
+                    compiled[nm] = c
+
+        if compiled:
+            class Recomp(ast.NodeTransformer):
+                def visit_Call(self, n):
+                    self.generic_visit(n)
+                    f_ = n.func
+                    if isinstance(f_, ast.Attribute) and isinstance(f_.value, ast.Name) and f_.value.id in compiled and f_.attr in ("split", "match", "search", "fullmatch", "sub", "subn", "findall", "finditer"):
+                        c = compiled[f_.value.id]
+                        limit = {"split": 2, "sub": 3, "subn": 3}.get(f_.attr, 1)
+                        if len(n.args) > limit:
+                            return n  # pos/endpos style arguments have no module-level equivalent
+                        flags = list(c.args[1:2]) + [k.value for k in c.keywords if k.arg == "flags"]
+                        new = ast.Call(func=ast.Attribute(value=ast.Name(id="re", ctx=ast.Load()), attr=f_.attr, ctx=ast.Load()), args=[copy.deepcopy(c.args[0])] + n.args, keywords=list(n.keywords) + ([ast.keyword(arg="flags", value=copy.deepcopy(flags[0]))] if flags else []))
+                        folded.append((f"{rel}:{f_.value.id}", getattr(n, "lineno", 0)))
+                        return ast.copy_location(new, n)
+                    return n
+
+            for st in tree.body:
+                if isinstance(st, ast.Assign) and isinstance(st.targets[0], ast.Name) and st.targets[0].id in compiled:
+                    continue
+                Recomp().visit(st)
+            ast.fix_missing_locations(tree)
         if not consts:
             continue
 
@@ -746,7 +1081,19 @@ def unroll_reflective_loops(mods):
             for n in ast.walk(b):
                 if isinstance(n, ast.Call) and isinstance(n.func, ast.Name) and n.func.id in ("getattr", "setattr") and len(n.args) >= 2 and isinstance(n.args[1], ast.Name) and n.args[1].id == var:
                     return True
+                # `for step in (self.a, self.b): step(x)`: a loop over function values
+                if isinstance(n, ast.Call) and isinstance(n.func, ast.Name) and n.func.id == var:
+                    return True
         return False
+
+    class SubstExpr(ast.NodeTransformer):
+        def __init__(self, var, expr):
+            self.var, self.expr = var, expr
+
+        def visit_Name(self, n):
+            if n.id == self.var and isinstance(n.ctx, ast.Load):
+                return ast.copy_location(copy.deepcopy(self.expr), n)
+            return n
 
     def do_block(stmts, rel):
         out = []
@@ -759,12 +1106,12 @@ def unroll_reflective_loops(mods):
                 for h in st.handlers:
                     h.body = do_block(h.body, rel)
             if (isinstance(st, ast.For) and isinstance(st.target, ast.Name) and not st.orelse and isinstance(st.iter, (ast.Tuple, ast.List)) and 0 < len(st.iter.elts) <= 24
-                    and all(isinstance(e, ast.Constant) and isinstance(e.value, str) for e in st.iter.elts) and reflective(st.body, st.target.id)
+                    and (all(isinstance(e, ast.Constant) and isinstance(e.value, str) for e in st.iter.elts) or (len(st.iter.elts) <= 8 and all(isinstance(e, (ast.Attribute, ast.Name)) for e in st.iter.elts))) and reflective(st.body, st.target.id)
                     and not any(isinstance(n, (ast.Break, ast.Continue)) for b in st.body for n in ast.walk(b))
                     and not any(isinstance(n, ast.Name) and n.id == st.target.id and isinstance(n.ctx, ast.Store) for b in st.body for n in ast.walk(b))):
                 for e in st.iter.elts:
                     for b in st.body:
-                        nb = Subst(st.target.id, e.value).visit(copy.deepcopy(b))
+                        nb = (Subst(st.target.id, e.value) if isinstance(e, ast.Constant) else SubstExpr(st.target.id, e)).visit(copy.deepcopy(b))
                         nb = Reflect().visit(nb)
                         out.append(ast.fix_missing_locations(nb))
                 done.append((rel, getattr(st, "lineno", 0), len(st.iter.elts)))
@@ -779,13 +1126,69 @@ def unroll_reflective_loops(mods):
     return done
 
 
+def expand_match_spans(mods):
+    """f(a, *m.span(k)) -> f(a, m.start(k), m.end(k))  (re.Match.span(k) is exactly that pair)"""
+    n_done = 0
+    for tree in mods.values():
+        for n in ast.walk(tree):
+            if isinstance(n, ast.Call) and any(isinstance(a, ast.Starred) and isinstance(a.value, ast.Call) and isinstance(a.value.func, ast.Attribute) and a.value.func.attr == "span" and isinstance(a.value.func.value, ast.Name) and not a.value.keywords and len(a.value.args) <= 1 for a in n.args):
+                new = []
+                for a in n.args:
+                    if isinstance(a, ast.Starred) and isinstance(a.value, ast.Call) and isinstance(a.value.func, ast.Attribute) and a.value.func.attr == "span" and isinstance(a.value.func.value, ast.Name):
+                        m, args = a.value.func.value, a.value.args
+                        for meth in ("start", "end"):
+                            new.append(ast.copy_location(ast.Call(func=ast.Attribute(value=copy.deepcopy(m), attr=meth, ctx=ast.Load()), args=copy.deepcopy(args), keywords=[]), a))
+                        n_done += 1
+                    else:
+                        new.append(a)
+                n.args = new
+        if n_done:
+            ast.fix_missing_locations(tree)
+    return n_done
+
+
+def constant_reflection(mods):
+    """getattr(x, "name") -> x.name, setattr(x, "name", v) -> x.name = v for literal names
+    (they appear when a helper taking the attribute name as a string is inlined)"""
+    n_done = 0
+
+    class Reflect(ast.NodeTransformer):
+        def visit_Call(self, n):
+            nonlocal n_done
+            self.generic_visit(n)
+            if isinstance(n.func, ast.Name) and n.func.id == "getattr" and len(n.args) == 2 and not n.keywords and isinstance(n.args[1], ast.Constant) and isinstance(n.args[1].value, str) and n.args[1].value.isidentifier():
+                n_done += 1
+                return ast.copy_location(ast.Attribute(value=n.args[0], attr=n.args[1].value, ctx=ast.Load()), n)
+            return n
+
+        def visit_Expr(self, st):
+            nonlocal n_done
+            self.generic_visit(st)
+            n = st.value
+            if isinstance(n, ast.Call) and isinstance(n.func, ast.Name) and n.func.id == "setattr" and len(n.args) == 3 and not n.keywords and isinstance(n.args[1], ast.Constant) and isinstance(n.args[1].value, str) and n.args[1].value.isidentifier():
+                n_done += 1
+                return ast.copy_location(ast.Assign(targets=[ast.Attribute(value=n.args[0], attr=n.args[1].value, ctx=ast.Store())], value=n.args[2], lineno=st.lineno), st)
+            return st
+
+    return n_done, Reflect
+
+
 def normalise(mods, known=None):
     """In-place normalisation of the module trees.  Returns (inlined call sites,
     removed helpers)."""
     if known is None:
         known = known_functions()
     folded = fold_new_constants(mods, known_constants())
+    expand_match_spans(mods)
     for rel, ln, n in unroll_reflective_loops(mods):
         folded.append((f"loop over {n} option names in {rel}", ln))
     rep, dropped = _Inliner(mods, known).run()
+    if rep:
+        # literal attribute names produced by inlining `helper(self, "name")`
+        _, Reflect = constant_reflection(mods)
+        touched = {c.split(":")[0] for _, c, _ in rep if c}
+        for rel in touched:
+            if rel in mods:
+                Reflect().visit(mods[rel])
+                ast.fix_missing_locations(mods[rel])
     return rep + [("const " + q, "", ln) for q, ln in folded], dropped
